@@ -53,6 +53,12 @@ M.update({
     "anti_storage_par_only_ok": ("src/storage/mod.rs", "unsafe impl<'a> Join for AntiStorage<'a> {\n    type Mask = BitSetNot<&'a BitSet>;\n    type Type = ();\n    type Value = ();\n\n    unsafe fn open(self) -> (Self::Mask, ()) {\n        (BitSetNot(self.0), ())", "unsafe impl<'a> Join for AntiStorage<'a> {\n    type Mask = BitSetNot<&'a BitSet>;\n    type Type = ();\n    type Value = ();\n\n    unsafe fn open(self) -> (Self::Mask, ()) {\n        (BitSetNot(self.0), ())", "-"),
 })
 
+M.update({
+    "par_split_drops_second_half": ("src/join/par_join.rs", "        let second = other.map(|o| JoinProducer::new(o, values));", "        let second = other.and_then(|o| if false { Some(JoinProducer::new(o, values)) } else { None });", "C07"),
+    "par_entities_ignores_raised_gen": ("src/world/entity.rs", "    unsafe fn get(v: &&'a EntitiesRes, id: Index) -> Entity {\n        let gen = v\n            .alloc\n            .generation(id)\n            .map(|gen| if gen.is_alive() { gen } else { gen.raised() })", "    unsafe fn get(v: &&'a EntitiesRes, id: Index) -> Entity {\n        let gen = v\n            .alloc\n            .generation(id)\n            .map(|gen| if gen.is_alive() { gen } else { Generation::one() })", "C07"),
+    "par_maybe_wrong_bit": ("src/join/maybe.rs", "    unsafe fn get((mask, value): &Self::Value, id: Index) -> Self::Type {\n        if mask.contains(id) {", "    unsafe fn get((mask, value): &Self::Value, id: Index) -> Self::Type {\n        if mask.contains(id) && id % 4096 != 4095 {", "C07"),
+})
+
 
 def sh(cmd, **kw):
     return subprocess.run(cmd, shell=True, **kw)
